@@ -589,8 +589,9 @@ def build_ugrid(spec):
     start_index = enc["start_index"]
     np_dtype = NP_DTYPES[enc.get("dtype", "i4")]
     fill_value = enc.get("fill_value")
-    if fill_value is None:
-        fill_value = 999999 if np_dtype != numpy.int16 else 32767
+    default_fill = 999999 if np_dtype not in (numpy.int16, numpy.uint16) else 32767
+    if fill_value is None or fill_value == "one_past_edges":
+        fill_value = default_fill
     if numpy.dtype(np_dtype).kind == "u" and (fill_value < 0 or fill_value > numpy.iinfo(np_dtype).max):
         fill_value = int(numpy.iinfo(np_dtype).max)      # what netCDF uses for unsigned types
     fill_style = enc["fill"]
@@ -607,7 +608,12 @@ def build_ugrid(spec):
     }
 
     def conn(name_key, rows, width, row_dim, col_dim, cf_role):
-        arr, attrs = _index_table(rows, width, start_index, fill_style, np_dtype, fill_value)
+        table_fill = fill_value
+        if enc.get("fill_value") == "one_past_edges":
+            # the first number that is NOT an edge index (edge count + index base) as the fill
+            # value of the face-edge table - a natural choice; the other tables keep the default
+            table_fill = (len(edges) + (start_index or 0)) if name_key == "face_edge" else default_fill
+        arr, attrs = _index_table(rows, width, start_index, fill_style, np_dtype, table_fill)
         attrs = dict(attrs)
         attrs["cf_role"] = cf_role
         if start_index is not None:
